@@ -288,12 +288,17 @@ impl XmlReader {
             return Ok(());
         };
 
+        // "./types.xsd" is the sibling types.xsd
+        let mut sibling = schema_location;
+        while let Some(rest) = sibling.strip_prefix("./") {
+            sibling = rest.trim_start_matches('/');
+        }
         let file = files
             .map
-            .get(schema_location)
+            .get(sibling)
             .ok_or_else(|| WriterError::ImportNotFound(schema_location.to_string()))?;
 
-        Self::read_file_into(file, schema_location, files, doc)
+        Self::read_file_into(file, sibling, files, doc)
     }
 }
 
